@@ -293,6 +293,36 @@ func c17(c *Ctx) {
 		if fn == nil {
 			continue
 		}
+		// the candidates are the tags the registry lists now, in this call: not remembered ones
+		for _, nv := range cfgx.Calls(fn, func(ci ssa.CallInstruction) bool { return strings.HasSuffix(cfgx.CalleeName(ci), "semver.NewVersion") }) {
+			var lists []ssa.Value
+			flow.Default.Any(cfgx.CallArgs(nv)[0], func(v ssa.Value) bool {
+				switch v := v.(type) {
+				case *ssa.IndexAddr:
+					lists = append(lists, v.X)
+				case *ssa.Index:
+					lists = append(lists, v.X)
+				case *ssa.Range:
+					lists = append(lists, v.X)
+				}
+				return false
+			})
+			fresh := len(lists) > 0
+			for _, l := range lists {
+				for _, leaf := range leaves(l) {
+					ex, ok := leaf.(*ssa.Extract)
+					if !ok {
+						fresh = false
+						continue
+					}
+					ci, ok := ex.Tuple.(ssa.CallInstruction)
+					if !ok || !strings.HasSuffix(cfgx.CalleeName(ci), "Fetcher).Tags") {
+						fresh = false
+					}
+				}
+			}
+			c.R.Check(fresh, site(nv)+" candidates are the listed tags", c.pos(nv.Pos()), "the versions parsed are the result of fetcher.Tags for this dependency in this call", "the tag list scanned does not (only) come from a fetcher.Tags call made here: tags remembered from another call (another repository, another time) can decide the version")
+		}
 		chk := calls(fn, semverCheck)
 		srt := calls(fn, "sort.Sort")
 		if len(chk) != 1 || len(srt) != 1 {
@@ -650,7 +680,9 @@ func c17(c *Ctx) {
 	if ae := c.method("internal/dag", "MapUpgradingDag", "AddEdge"); ae != nil {
 		to := ssa.Value(ae.Params[2])
 		through := map[*ssa.BasicBlock]bool{}
-		for _, x := range cfgx.Calls(ae, func(ci ssa.CallInstruction) bool { return strings.HasSuffix(cfgx.CalleeName(ci), ".AddParentConstraints") }) {
+		for _, x := range cfgx.Calls(ae, func(ci ssa.CallInstruction) bool {
+			return strings.HasSuffix(cfgx.CalleeName(ci), ".AddParentConstraints")
+		}) {
 			fromTo := false
 			for _, a := range cfgx.CallArgs(x) {
 				if flow.Default.Any(a, func(v ssa.Value) bool {
